@@ -62,7 +62,7 @@ def classify_build_failure(text):
     return "check", text.strip().splitlines()[0][:200] if text.strip() else "?"
 
 
-def run_program(i, files, run=True, timeout=60, stdin_text=None, main="prog.incn", want_files=False):
+def run_program(i, files, run=True, timeout=60, stdin_text=None, main="prog.incn", want_files=False, extra_env=None):
     """files: {relative path: text}; main file is compiled with `incan build`. Returns Result.
 
     The worker directory is protected by an exclusive file lock, so two checks started at the same time share the warm
@@ -72,10 +72,10 @@ def run_program(i, files, run=True, timeout=60, stdin_text=None, main="prog.incn
     wd = worker_dir(i)
     with open(os.path.join(wd, ".lock"), "w") as lk:
         fcntl.flock(lk, fcntl.LOCK_EX)
-        return _run_program(i, files, run, timeout, stdin_text, main, want_files)
+        return _run_program(i, files, run, timeout, stdin_text, main, want_files, extra_env)
 
 
-def _run_program(i, files, run, timeout, stdin_text, main, want_files):
+def _run_program(i, files, run, timeout, stdin_text, main, want_files, extra_env=None):
     wd = worker_dir(i)
     src = os.path.join(wd, "src")
     out = os.path.join(wd, "out")
@@ -89,6 +89,8 @@ def _run_program(i, files, run, timeout, stdin_text, main, want_files):
             f.write(text)
     env = dict(ENV_BASE)
     env["CARGO_TARGET_DIR"] = os.path.join(wd, "target")
+    if extra_env:
+        env.update(extra_env)
     r = Result()
     try:
         p = subprocess.run(
